@@ -648,4 +648,3 @@ package protocol
 //@   assert before Copy: mpSniffed && arg1 == r
 //@   ghostset after Copy: mpCopied = true
 //@   top-ensures err == nil ==> mpSniffed && mpCopied
-
